@@ -28,18 +28,33 @@ def tc_cls():
 
 
 def rich_tree(rng):
-    """a coherent tensordict with a few exotic entries; returns None when the constructor refuses"""
+    """a coherent tensordict with a few exotic entries, inserted in a random order (what a raising call leaves behind
+    depends on which entries were already processed); returns None when the constructor refuses"""
     from tensordict import LazyStackedTensorDict, NonTensorData, TensorDict
     bs = O.gen_bs(rng)[:2]
     try:
-        td = O.build(O.gen_tree(rng, bs, None, depth=2))
+        if rng.random() < 0.3:
+            td = TensorDict({}, batch_size=bs)            # no plain tensor that could refuse a new batch size first
+        else:
+            td = O.build(O.gen_tree(rng, bs, None, depth=2))
+        extras = []
         if rng.random() < 0.5:
-            td.set("nt", NonTensorData("hello", batch_size=bs))
+            extras.append(("nt", lambda: NonTensorData("hello", batch_size=bs)))
+        if bs and bs[0] > 0 and rng.random() < 0.35:
+            # a NonTensorStack is a lazy stack: it cannot follow a new batch size
+            extras.append(("nts", lambda: torch.stack([NonTensorData(str(i), batch_size=bs[1:]) for i in range(bs[0])], 0)))
         if rng.random() < 0.4:
             m = TensorDict({"p": torch.zeros(bs + [2])}, batch_size=bs)
-            td.set("lazy", LazyStackedTensorDict.lazy_stack([m.clone(), m.clone()], len(bs)))
+            extras.append(("lazy", lambda: LazyStackedTensorDict.lazy_stack([m.clone(), m.clone()], len(bs))))
         if rng.random() < 0.4:
-            td.set("tc", tc_cls()(u=torch.zeros(bs + [1]), w=torch.zeros(bs), batch_size=bs))
+            extras.append(("tc", lambda: tc_cls()(u=torch.zeros(bs + [1]), w=torch.zeros(bs), batch_size=bs)))
+        for name in ("e0", "e1"):
+            if rng.random() < 0.35:
+                # empty nested tensordicts legitimately follow any new batch size
+                extras.append((name, lambda: TensorDict({}, batch_size=bs + ([rng.choice(O.DIMS)] if rng.random() < 0.3 else []))))
+        rng.shuffle(extras)
+        for name, mk in extras:
+            td.set(name, mk())
     except Exception:  # noqa
         return None
     return td
@@ -85,8 +100,7 @@ def one_op(rng, root):
     h, node = ns[0] if rng.random() < 0.55 else rng.choice(ns)
     keys = list(node.keys(True))
     key = rng.choice(keys) if keys and rng.random() < 0.7 else tuple(rng.choice(O.KEYS) for _ in range(rng.randint(1, 2)))
-    strk = rng.choice(O.KEYS + ["nt", "lazy", "tc"])
-    skel = O.snap(node) if not any(x in ("lazy", "tc") for x in map(str, node.keys())) else ["n", list(node.batch_size), None, None, []]
+    strk = rng.choice(O.KEYS + ["nt", "nts", "lazy", "tc", "e0"])
     choices = [
         ("set", lambda: node.set(key, rnd_tensor(rng, node))),
         ("set_nested", lambda: node.set(key, O.build(O.gen_value(rng, ["n", list(node.batch_size), O.dev_id(node.device), None, []])))),
@@ -97,7 +111,7 @@ def one_op(rng, root):
         ("setitem_index_new_key", lambda: node.__setitem__(rnd_index(rng, node), {("z", "zz"): rnd_tensor(rng, node)})),
         ("update_dict", lambda: node.update({strk: rnd_tensor(rng, node), ("q", "r"): rnd_tensor(rng, node, ok=0.5)})),
         ("update_td", lambda: node.update(O.build(O.gen_tree(rng, O.mutate_shape(rng, list(node.batch_size))[:3] if rng.random() < 0.4 else list(node.batch_size), None, 1)))),
-        ("update_bs", lambda: node.update(O.build(O.gen_tree(rng, O.gen_bs(rng), None, 1)), update_batch_size=True)),
+        ("update_bs", lambda: node.update(O.build(O.gen_tree(rng, O.gen_bs(rng), None, rng.randint(1, 2))), update_batch_size=True)),
         ("update_", lambda: node.update_({k: torch.ones_like(v) for k, v in node.items() if isinstance(v, torch.Tensor)})),
         ("update_at_", lambda: node.update_at_({k: torch.ones_like(v[rnd_index(rng, node)]) for k, v in node.items() if isinstance(v, torch.Tensor)}, rnd_index(rng, node))),
         ("del", lambda: node.del_(key)),
@@ -158,8 +172,109 @@ def fixed_scenarios(run):
         run.oracle_ok("walk-ext")
 
 
+def refusal_scenarios(run, rng, n):
+    """a batch-size change that is refused must leave nothing resized, whichever entry refuses and whatever was processed
+    before it: trees made of entries that follow any batch size (empty nested tensordicts, NonTensorData) and ONE entry that
+    may refuse (NonTensorStack, lazy stack, tensorclass, nested tensordict with content, plain tensor), in a random insertion
+    order, then one batch-size changing call; walk_coherent afterwards"""
+    from tensordict import LazyStackedTensorDict, NonTensorData, TensorDict
+    for i in range(n):
+        bs = [rng.choice([1, 2, 3]) for _ in range(rng.randint(1, 2))]
+        followers = []
+        for j in range(rng.randint(1, 3)):
+            if rng.random() < 0.7:
+                followers.append((f"e{j}", lambda: TensorDict({}, batch_size=bs + ([rng.choice(O.DIMS)] if rng.random() < 0.3 else []))))
+            else:
+                followers.append((f"n{j}", lambda: NonTensorData("x", batch_size=bs)))
+        kind = rng.choice(["nts", "lazy", "tc", "nested", "tensor", "nested_empty_deep"])
+        if kind == "nts":
+            refuser = lambda: torch.stack([NonTensorData(str(q), batch_size=bs[1:]) for q in range(bs[0])], 0)
+        elif kind == "lazy":
+            m = TensorDict({"p": torch.zeros(bs + [2])}, batch_size=bs)
+            refuser = lambda: LazyStackedTensorDict.lazy_stack([m.clone(), m.clone()], len(bs))
+        elif kind == "tc":
+            refuser = lambda: tc_cls()(u=torch.zeros(bs + [1]), w=torch.zeros(bs), batch_size=bs)
+        elif kind == "nested":
+            refuser = lambda: TensorDict({"q": torch.zeros(bs + [2])}, batch_size=bs)
+        elif kind == "nested_empty_deep":
+            refuser = lambda: TensorDict({"d": TensorDict({"dd": TensorDict({}, bs + [2])}, bs)}, batch_size=bs)
+        else:
+            refuser = lambda: torch.zeros(bs + [2])
+        entries = followers + [("r", refuser)]
+        rng.shuffle(entries)
+        try:
+            td = TensorDict({}, batch_size=bs)
+            for name, mk in entries:
+                td.set(name, mk())
+            if rng.random() < 0.3:
+                td.names = [rng.choice(O.NAMEPOOL[:2]) if q == 0 else None for q in range(len(bs))]
+        except Exception:  # noqa
+            continue
+        if O.walk_coherent(td):
+            continue
+        r = rng.random()
+        if r < 0.45:
+            new = O.mutate_shape(rng, bs)
+            call, thunk = f"td.batch_size = {new}", (lambda: setattr(td, "batch_size", new))
+        elif r < 0.65:
+            new = O.gen_shape_ext(rng, bs, 1, 1)
+            call, thunk = f"td.batch_size = {new}", (lambda: setattr(td, "batch_size", new))
+        elif r < 0.8:
+            new = bs[:rng.randint(0, len(bs) - 1)]
+            call, thunk = f"td.batch_size = {new}", (lambda: setattr(td, "batch_size", new))
+        else:
+            bd = rng.choice([None, 1, 2])
+            call, thunk = f"td.auto_batch_size_({bd})", (lambda: td.auto_batch_size_(bd))
+        order = [name for name, _ in entries]
+        out = "ok"
+        try:
+            with O.time_limit(10):
+                thunk()
+        except TimeoutError:
+            raise
+        except Exception as e:  # noqa
+            out = "raised:" + O.cls_of(e)
+        run.count("ops.extended", "refusal:" + kind)
+        try:
+            viol = O.walk_coherent(td)
+        except Exception as e:  # noqa
+            viol = [f"cannot be walked: {type(e).__name__}: {str(e)[:100]}"]
+        if viol:
+            run.oracle_fail("walk-ext", {"scenario": "refusal", "batch_size": bs, "entries in insertion order": order, "refuser": kind, "call": call},
+                            f"after {call} ({out}): " + "; ".join(viol[:3]), f"refusal:{kind}:{out}")
+        else:
+            run.oracle_ok("walk-ext")
+
+
+def update_bs_scenarios(run):
+    """the known finding C01-update-batch-size-nested in its 2- and 3-level forms (fingerprints start with `update_bs:`)"""
+    from tensordict import TensorDict
+    cases = {
+        "2-level": (lambda: TensorDict({"c": TensorDict({"a": torch.zeros(3, 1)}, [3, 1]), "a": torch.zeros(3, 1)}, [3, 1]),
+                    lambda: TensorDict({"c": TensorDict({"c": torch.zeros(1, 1, 3), "a": torch.zeros(1, 0, 0)}, [1])}, [])),
+        "3-level": (lambda: TensorDict({"mid": TensorDict({"leaf": TensorDict({"x": torch.zeros(3)}, [3])}, [3])}, [3]),
+                    lambda: TensorDict({"mid": TensorDict({"leaf": TensorDict({"x": torch.zeros(4)}, [4])}, [])}, [])),
+    }
+    for name, (mk_dest, mk_src) in cases.items():
+        dest, src = mk_dest(), mk_src()
+        out = "ok"
+        try:
+            dest.update(src, update_batch_size=True)
+        except Exception as e:  # noqa
+            out = "raised:" + O.cls_of(e)
+        run.count("ops.extended", "scenario:update_bs:" + name)
+        viol = O.walk_coherent(dest)
+        if viol:
+            run.oracle_fail("walk-ext", {"scenario": "update_bs " + name, "call": "dest.update(src, update_batch_size=True)"},
+                            f"({out}): " + "; ".join(viol[:3]), f"update_bs:{name}:{out}")
+        else:
+            run.oracle_ok("walk-ext")
+
+
 def run_extended(run, rng):
     fixed_scenarios(run)
+    update_bs_scenarios(run)
+    refusal_scenarios(run, rng, 300 if run.tier == "quick" else 3000)
     nh = 500 if run.tier == "quick" else 5000
     for hid in range(nh):
         td = rich_tree(rng)
